@@ -192,10 +192,34 @@ def print_assumptions(prop_id, theorems):
     return res, ""
 
 
-def hygiene():
-    """no Admitted/admit/Axiom/... anywhere in the development (comments stripped)"""
+def dep_closure(start_rel):
+    """files of the development that props/<id>.v (transitively) requires, by scanning `From TV Require` lines"""
+    seen, todo = set(), [start_rel]
+    while todo:
+        rel = todo.pop()
+        if rel in seen or not (COQ / rel).exists():
+            continue
+        seen.add(rel)
+        txt = strip_comments((COQ / rel).read_text())
+        for m in re.finditer(r"From\s+TV\s+Require\s+(?:Import\s+|Export\s+)?([^.]*(?:\.[A-Za-z_][^.\s]*)*)\.", txt):
+            pass
+        for m in re.finditer(r"From\s+TV\s+Require\s+(?:Import\s+|Export\s+)?((?:[A-Za-z_][\w']*(?:\.[A-Za-z_][\w']*)*\s*)+)\.(?:\s|$)", txt):
+            for mod in m.group(1).split():
+                todo.append(mod.replace(".", "/") + ".v")
+        for m in re.finditer(r"Require\s+(?:Import\s+|Export\s+)?((?:TV\.[\w.']+\s*)+)\.(?:\s|$)", txt):
+            for mod in m.group(1).split():
+                todo.append(mod[3:].replace(".", "/") + ".v")
+    return sorted(seen)
+
+
+def hygiene(prop_id=None):
+    """no Admitted/admit/Axiom/... in the files the property depends on (comments stripped)"""
     bad = []
-    for f in sorted(COQ.rglob("*.v")):
+    if prop_id:
+        files = [COQ / r for r in dep_closure(f"props/{prop_id}.v")]
+    else:
+        files = sorted(COQ.rglob("*.v"))
+    for f in files:
         txt = f.read_text()
         txt = strip_comments(txt)
         in_section = 0
